@@ -45,3 +45,15 @@ Example ex_split : scall SSplit "Hello World" [EStr "o"] = Some (EArr [EStr "Hel
 Proof. split; vm_compute; reflexivity. Qed.
 Example ex_sspec_dom : sspec SSubstring "hello" [EInt (-3); EInt 99] <> None.
 Proof. discriminate. Qed.
+
+(* cb_throw_propagates: hypotheses hold for a callback throwing at index 1 of a 3-element receiver *)
+Example ex_throw : passes MMap (tcb_fun TcAt1) [EInt 5; EInt 6; EInt 7] 0 [EInt 5] = true
+                /\ tcb_fun TcAt1 (EInt 6) 1 [EInt 5; EInt 6; EInt 7] = None
+                /\ call_cbT MMap (tcb_fun TcAt1) [EInt 5; EInt 6; EInt 7] = (None, [EInt 5; EInt 6; EInt 7])
+                /\ call_cbT MFind (tcb_fun TcAt2Zero) [EInt 5; EInt 6; EInt 7] = (Some (EInt 5), [EInt 5; EInt 6; EInt 7]).
+Proof. repeat split; vm_compute; reflexivity. Qed.
+Example ex_seq : run_seq [EInt 1; EInt 2; EInt 3]
+                   [StCall MPush [EInt 4]; StCall MSplice [EInt 1; EInt 0; EStr "x"; EStr "y"]] =
+  [(EInt 4, [EInt 1; EInt 2; EInt 3; EInt 4]);
+   (EArr [], [EInt 1; EStr "x"; EStr "y"; EInt 2; EInt 3; EInt 4])].
+Proof. vm_compute. reflexivity. Qed.
